@@ -63,7 +63,8 @@ Definition agree (c : case) : bool :=
    one the converter uses (index shift with any scale-down, or no shift and no scale-down) *)
 Definition layout_pre (cs : list Z) (off sd : Z) (adj : bool) : bool :=
   forallb (fun c => 0 <=? c) cs && (sumZ cs <=? maxInt64) &&
-  int32b off && (off + Z.of_nat (length cs) <=? maxInt32) && (0 <=? sd) && (adj || (sd =? 0)).
+  int32b off && (Z.of_nat (length cs) <=? maxInt32) && (off + Z.of_nat (length cs) <=? maxInt32) &&
+  (0 <=? sd) && (adj || (sd =? 0)).
 
 Fixpoint idxs (i : Z) (n : nat) : list Z := match n with O => [] | S k => i :: idxs (i + 1) k end.
 
